@@ -45,7 +45,7 @@ hand = '%d.%d' % (k // 10, k % 10)
 auto = hand + '0'
 a, b = call(hand), call(auto)
 print(LABEL, 'hand-timed', hand, '->', a, '; electronic', auto, '->', b)
-sys.exit(0 if a <= b else 1)
+sys.exit(0 if a <= b and a >= 0 and b >= 0 and isinstance(a, int) and isinstance(b, int) else 1)
 '''
 
 
@@ -167,6 +167,7 @@ def body_manual(callf, kmin, kmax):
         except Exception as e:
             raise hc.PathFail('raises', '%s: %s' % (type(e).__name__, str(e)[:80]))
         eng.check(term_of(a) <= term_of(b), 'manual')
+        eng.check(z3.And(term_of(a) >= 0, term_of(b) >= 0), 'manual')       # results are never negative, hand-timed marks included
         return {'inputs': {'k': k}, 'observe': []}
     return body
 
@@ -215,7 +216,7 @@ def build_jobs(athlib, quick):
             else:
                 y, v = yv
                 ages = list(range(y, y + len(v)))
-            sel = ages if not quick else sorted({ages[0], ages[-1]})
+            sel = ages if (not quick or kind != 'race') else sorted({ages[0], ages[-1]})     # field formulas are cheap: every age also in the quick tier
             for age in sel:
                 if kind == 'race':
                     dist = args[0]
@@ -369,7 +370,7 @@ def run(chk, only=None):
                  'a mark on the grid is the double nearest to k/100 (what the literal, float(text) and k/100 all give)']
     chk.bounds = {'rows': len(jobs), 'marks': 'adjacent pairs k, k+1 on the 0.01 grid (1 point for combined-event totals) from 0 to beyond the tabulated range of each row',
                   'athlon_ages': 'no age + bands %s' % ('35, 70, 112' if quick else '30..115 in fives, 37, 118'),
-                  'tyrving_ages': 'youngest and oldest tabulated age per event' if quick else 'every tabulated age',
+                  'tyrving_ages': 'races: youngest and oldest tabulated age per event; jumps / throws: every tabulated age' if quick else 'every tabulated age',
                   'hungarian_timed': 'up to and beyond the zero point of the parabola (beyond it the score is 0)'}
     chk.bounds['history'] = ('Tyrving races up to 400 m and every combined-events row: one mark scored, one other call for the same row (a one-decimal or whole-second, hand-timed '
                              'text resp. the masters-age / ESAA options, at one concrete mark), then the adjacent mark scored - the order clause must still hold, both orders')
